@@ -25,6 +25,7 @@ type State struct {
 	allocTop *Term
 	ghost    map[string]*Term
 	tags     map[string]int // heap key prefixes havoced before first touch
+	splits   []*Term        // reach conditions of the states merged at the most recent join (exactly one holds)
 }
 
 func (s *State) clone() *State {
@@ -39,6 +40,7 @@ func (s *State) clone() *State {
 	for k, v := range s.ghost {
 		n.ghost[k] = v
 	}
+	n.splits = s.splits
 	n.tags = make(map[string]int, len(s.tags))
 	for k, v := range s.tags {
 		n.tags[k] = v
@@ -68,6 +70,10 @@ type Obligation struct {
 	File    string
 	SatMode string // which query form was satisfiable: ground | full
 	SmallScope []*Term // extra constraints for small-scope model extraction
+	Splits     []*Term // case split offered to the discharge step: the reach conditions merged at the last join
+	caseMap    map[*Term]*Term // (derived obligation) one case: reach conditions replaced by true / false
+	caseFacts  []*Term
+	caseName   string
 }
 
 type Exec struct {
@@ -214,6 +220,9 @@ func (x *Exec) oblige(st *State, kind, desc string, p token.Pos, cond *Term, pro
 		}
 	}
 	ob.block = x.curBlock
+	if len(st.splits) >= 2 && len(st.splits) <= 6 {
+		ob.Splits = st.splits
+	}
 	x.obls = append(x.obls, ob)
 	switch kind {
 	case "ensures", "frame", "inv-keep", "callback-preserves", "step":
@@ -272,6 +281,9 @@ func (x *Exec) havocKeyPrefix(st *State, prefix string) {
 	for k, t := range st.heap {
 		if keyMatches(k, prefix) {
 			st.heap[k] = x.c.Fresh("Hh_"+k, t.sort)
+			if os.Getenv("GOVC_DEBUG_HAVOC") != "" && strings.Contains(k, os.Getenv("GOVC_DEBUG_HAVOC")) && x.curInstr != nil {
+				fmt.Fprintf(os.Stderr, "havoc %s -> %s at %s (%T %s)\n", k, st.heap[k].op, x.pos(x.curInstr.Pos()), x.curInstr, x.curInstr)
+			}
 		}
 	}
 	// unmaterialised keys: remember the prefix; heapGet for a key matching a
@@ -1057,6 +1069,28 @@ func (x *Exec) mergeStates(ins []edgeState) *State {
 	if !sameGen {
 		x.gens++
 		res.gen = x.gens
+	}
+	res.splits = nil
+	for _, e := range ins {
+		res.splits = append(res.splits, e.st.reach)
+	}
+	if x.fc != nil && x.fc.NameMerges {
+		// give every merged heap array a name (with its defining equation as a hypothesis): element
+		// terms over it stay plain selects, which quantifier patterns can match; an ite pushed through
+		// the select cannot be a pattern
+		var keys []string
+		for k := range res.heap {
+			keys = append(keys, k)
+		}
+		sort.Strings(keys)
+		for _, k := range keys {
+			t := res.heap[k]
+			if t.op == "ite" && strings.HasPrefix(string(t.sort), "(Array") {
+				n := c.Fresh("Hm_"+k, t.sort)
+				x.hyps = append(x.hyps, c.mk("=", SBool, n, t))
+				res.heap[k] = n
+			}
+		}
 	}
 	return res
 }
